@@ -95,7 +95,7 @@ func NewTypeInfo(doc *ast.Document, s *schema.Schema, features schema.FeatureSet
 		case *ast.Directive:
 			if directive := s.Directives()[node.Name.Name]; directive != nil {
 				for _, arg := range node.Arguments {
-					if expected, ok := directive.Arguments[arg.Name.Name]; ok {
+					if expected, ok := directive.VisibleArguments(features)[arg.Name.Name]; ok {
 						ret.ExpectedTypes[arg.Value] = expected.Type
 						if expected.DefaultValue != nil {
 							if expected.DefaultValue == schema.Null {
